@@ -34,6 +34,49 @@ Proof. intros H. now apply combine_nth. Qed.
 Lemma nat_list_eqb_eq (l1 l2 : list nat) : list_eqb Nat.eqb l1 l2 = true <-> l1 = l2.
 Proof. apply list_eqb_spec. intros a b. apply Nat.eqb_eq. Qed.
 
+(* ---- broadcasting moves cells around, it invents none ---- *)
+
+Lemma In_chunks {X} k n : forall (l row : list X) x, In row (chunks k n l) -> In x row -> In x l.
+Proof.
+  induction n as [|n IH]; cbn; intros l row x H Hx; [contradiction|].
+  destruct H as [H|H]; [subst; eapply In_firstn; eauto | eapply In_skipn, IH; eauto].
+Qed.
+
+Lemma bc_In {X} sh : forall tgt (data : list X) x, In x (bc sh tgt data) -> In x data.
+Proof.
+  induction sh as [|n sh IH]; intros [|t tgt] data x; cbn; auto.
+  destruct (Nat.eqb n t).
+  - rewrite in_flat_map. intros (row & Hr & Hx). eapply In_chunks; eauto.
+  - rewrite in_concat. intros (l & Hl & Hx). apply repeat_spec in Hl. subst. eauto.
+Qed.
+
+Lemma bcast_In {X} sh tgt (data : list X) x : In x (bcast sh tgt data) -> In x data.
+Proof. apply bc_In. Qed.
+
+(* ---- the constructor ---- *)
+
+Lemma dims_okb_ok {X} sh : forall bs : list (list X), dims_okb sh bs = true ->
+  length bs = length sh /\ Forall2 (fun n b => length b = n \/ length b = S n) sh bs.
+Proof.
+  induction sh as [|n sh IH]; intros [|b bs]; cbn; try discriminate.
+  - split; constructor.
+  - rewrite andb_true_iff, orb_true_iff, !Nat.eqb_eq. intros [Hb H].
+    destruct (IH _ H). split; [lia|constructor; auto].
+Qed.
+
+(* whatever __init__ accepts is the dataset made of its arguments, and well formed *)
+Lemma ctor_spec vsh v esh e m bn nm wh x :
+  ctor vsh v esh e m bn nm wh = Ok x -> x = mk_ds vsh v e m bn nm wh /\ wf x.
+Proof.
+  unfold ctor.
+  match goal with |- (if ?c then _ else _) = _ -> _ => destruct c eqn:E end; [|discriminate].
+  intros H; inversion H; subst; clear H. split; [reflexivity|].
+  rewrite !andb_true_iff in E. destruct E as ((((E1 & E2) & E3) & E4) & E5).
+  apply Nat.eqb_eq in E2, E3. unfold wf; cbn. repeat split; auto.
+  - intros l Hl; subst m. now apply Nat.eqb_eq.
+  - destruct bn as [|b bn']; [now left|]. right. now apply dims_okb_ok.
+Qed.
+
 (* ---- one arithmetic operation ---- *)
 
 Lemma consistent_shape d d2 : consistent d d2 = true -> shape d2 = shape d.
@@ -47,26 +90,65 @@ Proof.
   rewrite zipw_length, (H1 a eq_refl), (H2 b eq_refl). apply Nat.min_id.
 Qed.
 
-(* the result has the shape, bins and name of the left operand, and is well formed *)
-Lemma binop_keeps o d r x :
-  binop o d r = Ok x -> shape x = shape d /\ bins x = bins d /\ name x = name d.
+(* an ndarray operand of another shape: the broadcast result, as far as
+   __init__ accepts it *)
+Lemma binop_arr_other o d sh a x :
+  list_eqb Nat.eqb sh (shape d) = false -> binop o d (RArr sh a) = Ok x ->
+  exists bs, bshape (shape d) sh = Some bs /\ wf x /\ shape x = bs
+    /\ value x = zipw (cell_val o) (bcast (shape d) bs (value d)) (bcast sh bs a)
+    /\ (error x = error d \/
+        error x = zipw (cell_err_dc o) (bcast (shape d) bs (error d)) (bcast sh bs a))
+    /\ bins x = bins d /\ name x = name d.
 Proof.
-  destruct r as [c|sh a|d2]; cbn.
-  - intros E; inversion E; subst; cbn; auto.
-  - destruct (negb _); [discriminate|]. intros E; inversion E; subst; cbn; auto.
-  - destruct (negb _); [discriminate|]. intros E; inversion E; subst; cbn; auto.
+  intros Es. cbn. rewrite Es. destruct (bshape (shape d) sh) as [bs|]; [|discriminate].
+  intros E. exists bs. split; [reflexivity|].
+  destruct o; apply ctor_spec in E; destruct E as [-> Hw]; cbn; auto 10.
+Qed.
+
+Lemma binop_arr_broadcast o d sh a x :
+  sh <> shape d -> binop o d (RArr sh a) = Ok x ->
+  exists bs, bshape (shape d) sh = Some bs /\ wf x /\ shape x = bs
+    /\ value x = zipw (cell_val o) (bcast (shape d) bs (value d)) (bcast sh bs a)
+    /\ (error x = error d \/
+        error x = zipw (cell_err_dc o) (bcast (shape d) bs (error d)) (bcast sh bs a))
+    /\ bins x = bins d /\ name x = name d.
+Proof.
+  intros Hs. apply binop_arr_other.
+  destruct (list_eqb Nat.eqb sh (shape d)) eqn:Es; [|reflexivity].
+  now apply nat_list_eqb_eq in Es.
+Qed.
+
+(* the result has the bins and name of the left operand, and its shape unless an
+   ndarray of another shape was broadcast against it *)
+Definition same_shape_rhs (d : ds) (r : rhs) : Prop :=
+  match r with RArr sh _ => sh = shape d | _ => True end.
+
+Lemma binop_keeps o d r x :
+  binop o d r = Ok x ->
+  bins x = bins d /\ name x = name d /\ (same_shape_rhs d r -> shape x = shape d).
+Proof.
+  destruct r as [c|sh a|d2].
+  - cbn. intros E; inversion E; subst; cbn; auto.
+  - destruct (list_eqb Nat.eqb sh (shape d)) eqn:Es.
+    + cbn. rewrite Es. intros E; inversion E; subst; cbn; auto.
+    + intros E. destruct (binop_arr_other _ _ _ _ _ Es E) as (bs & _ & _ & _ & _ & _ & Hb & Hn).
+      repeat split; auto. cbn. intros ->.
+      assert (list_eqb Nat.eqb (shape d) (shape d) = true) by now apply nat_list_eqb_eq.
+      congruence.
+  - cbn. destruct (negb _); [discriminate|]. intros E; inversion E; subst; cbn; auto.
 Qed.
 
 Lemma binop_wf o d r x : wf d -> wf_rhs r -> binop o d r = Ok x -> wf x.
 Proof.
   intros (Hv & He & Hm & Hb) Hr.
-  destruct r as [c|sh a|d2]; cbn.
-  - intros E; inversion E; subst; clear E. unfold wf; cbn. rewrite !map_length. auto.
-  - destruct (list_eqb Nat.eqb sh (shape d)) eqn:Es; cbn; [|discriminate].
-    apply nat_list_eqb_eq in Es. subst sh. cbn in Hr.
-    intros E; inversion E; subst; clear E. unfold wf; cbn.
-    rewrite !zipw_length, Hv, He, Hr, Nat.min_id. auto.
-  - destruct (consistent d d2) eqn:Ec; cbn; [|discriminate].
+  destruct r as [c|sh a|d2].
+  - cbn. intros E; inversion E; subst; clear E. unfold wf; cbn. rewrite !map_length. auto.
+  - destruct (list_eqb Nat.eqb sh (shape d)) eqn:Es.
+    + cbn. rewrite Es. apply nat_list_eqb_eq in Es. subst sh. cbn in Hr.
+      intros E; inversion E; subst; clear E. unfold wf; cbn.
+      rewrite !zipw_length, Hv, He, Hr, Nat.min_id. auto.
+    + intros E. now destruct (binop_arr_other _ _ _ _ _ Es E) as (bs & _ & Hw & _).
+  - cbn. destruct (consistent d d2) eqn:Ec; cbn; [|discriminate].
     apply consistent_shape in Ec. destruct Hr as (Hv2 & He2 & Hm2 & _). rewrite Ec in *.
     intros E; inversion E; subst; clear E. unfold wf; cbn.
     rewrite !zipw_length, !combine_length, Hv, He, Hv2, He2, !Nat.min_id.
@@ -79,7 +161,7 @@ Lemma binop_value_num o d c x :
 Proof. cbn. intros E; now inversion E. Qed.
 
 Lemma binop_value_cells o d r x k :
-  wf d -> wf_rhs r -> binop o d r = Ok x -> k < prod (shape d) ->
+  wf d -> wf_rhs r -> same_shape_rhs d r -> binop o d r = Ok x -> k < prod (shape d) ->
   nth k (value x) fzero
   = cell_val o (nth k (value d) fzero)
                (match r with
@@ -88,14 +170,15 @@ Lemma binop_value_cells o d r x k :
                 | RDs d2 => nth k (value d2) fzero
                 end).
 Proof.
-  intros (Hv & He & Hm & Hb) Hr.
+  intros (Hv & He & Hm & Hb) Hr Hs.
   destruct r as [c|sh a|d2]; cbn.
   - intros E Hk; inversion E; subst; clear E; cbn.
     rewrite <- Hv in Hk.
     rewrite (nth_indep _ fzero (cell_val o fzero c)) by now rewrite map_length.
     now rewrite (map_nth (fun v => cell_val o v c)).
-  - destruct (list_eqb Nat.eqb sh (shape d)) eqn:Es; cbn; [|discriminate].
-    apply nat_list_eqb_eq in Es. subst sh. cbn in Hr.
+  - cbn in Hs. subst sh.
+    assert (Es : list_eqb Nat.eqb (shape d) (shape d) = true) by now apply nat_list_eqb_eq.
+    rewrite Es. cbn in Hr.
     intros E Hk; inversion E; subst; clear E; cbn. apply zipw_nth; lia.
   - destruct (consistent d d2) eqn:Ec; cbn; [|discriminate].
     apply consistent_shape in Ec. destruct Hr as (Hv2 & He2 & Hm2 & _). rewrite Ec in *.
@@ -170,9 +253,14 @@ Proof.
   intros Hd. destruct r as [c|sh a|d2].
   - cbn. intros E; inversion E; subst; clear E; cbn.
     apply Forall_map. eapply Forall_impl; [|exact Hd]. intros e He. now apply cell_err_dc_not_neg.
-  - cbn. destruct (negb _); [discriminate|]. intros E; inversion E; subst; clear E; cbn.
-    apply zipw_Forall. intros e c He _. apply cell_err_dc_not_neg.
-    rewrite Forall_forall in Hd. now apply Hd.
+  - destruct (list_eqb Nat.eqb sh (shape d)) eqn:Es.
+    + cbn. rewrite Es. intros E; inversion E; subst; clear E; cbn.
+      apply zipw_Forall. intros e c He _. apply cell_err_dc_not_neg.
+      rewrite Forall_forall in Hd. now apply Hd.
+    + intros E. destruct (binop_arr_other _ _ _ _ _ Es E) as (bs & _ & _ & _ & _ & [He|He] & _);
+        rewrite He; [exact Hd|].
+      apply zipw_Forall. intros e c Hin _. apply cell_err_dc_not_neg.
+      rewrite Forall_forall in Hd. apply Hd. eapply bcast_In; eauto.
   - intros E. eapply Forall_impl; [|exact (binop_error_sign_ds _ _ _ _ E)].
     intros e. apply Bsign_false_not_neg.
 Qed.
@@ -305,33 +393,43 @@ Qed.
 
 Definition is_squeeze (o : op) : bool := match o with OSqueeze => true | _ => false end.
 
+(* operations that can change the shape: squeeze, and an ndarray operand (numpy
+   broadcasting may enlarge the value when __init__ accepts the result) *)
+Definition may_reshape (o : op) : bool :=
+  match o with OSqueeze | OBin _ (RArr _ _) => true | _ => false end.
+
 Lemma run_op_keeps d o x :
   run_op d o = Ok x ->
   name x = name d /\ sublist (bins x) (bins d) /\
-  (is_squeeze o = false -> shape x = shape d /\ bins x = bins d).
+  (is_squeeze o = false -> bins x = bins d) /\
+  (may_reshape o = false -> shape x = shape d).
 Proof.
   destruct o as [b r| |m|]; intros E.
-  - destruct (binop_keeps _ _ _ _ E) as (Hs & Hb & Hn). rewrite Hb.
+  - destruct (binop_keeps _ _ _ _ E) as (Hb & Hn & Hs). rewrite Hb.
     repeat split; auto using sublist_refl.
+    intros Hr. apply Hs. destruct r; cbn in *; auto; discriminate.
   - cbn in E; inversion E; subst. repeat split; auto using sublist_refl.
   - destruct (mask_keeps _ _ _ E) as (Hs & _ & _ & Hb & Hn & _). rewrite Hb.
     repeat split; auto using sublist_refl.
-  - cbn in E; inversion E; subst; cbn. repeat split; [apply drop_unit_sublist | discriminate | discriminate].
+  - cbn in E; inversion E; subst; cbn.
+    repeat split; [apply drop_unit_sublist | discriminate | discriminate].
 Qed.
 
 Theorem chain_keeps ops : forall d x,
   run_chain d ops = Ok x ->
   name x = name d /\ sublist (bins x) (bins d) /\
-  (forallb (fun o => negb (is_squeeze o)) ops = true -> shape x = shape d /\ bins x = bins d).
+  (forallb (fun o => negb (is_squeeze o)) ops = true -> bins x = bins d) /\
+  (forallb (fun o => negb (may_reshape o)) ops = true -> shape x = shape d).
 Proof.
   induction ops as [|o ops IH]; intros d x; cbn.
   - intros E; inversion E; subst. repeat split; auto using sublist_refl.
   - destruct (run_op d o) as [d'|c] eqn:E1; [|discriminate]. intros E.
-    destruct (run_op_keeps _ _ _ E1) as (Hn1 & Hs1 & Hk1).
-    destruct (IH _ _ E) as (Hn & Hs & Hk).
+    destruct (run_op_keeps _ _ _ E1) as (Hn1 & Hs1 & Hb1 & Hk1).
+    destruct (IH _ _ E) as (Hn & Hs & Hb & Hk).
     split; [congruence|]. split; [eapply sublist_trans; eauto|].
-    rewrite andb_true_iff, negb_true_iff. intros [Ho Hr].
-    destruct (Hk1 Ho) as [A B]. destruct (Hk Hr) as [C D]. split; congruence.
+    split; rewrite andb_true_iff, negb_true_iff; intros [Ho Hr].
+    + rewrite (Hb Hr). now apply Hb1.
+    + rewrite (Hk Hr). now apply Hk1.
 Qed.
 
 (* a chain never hands back one of its inputs modified: results are new
